@@ -46,6 +46,7 @@ type state struct {
 	estCount int
 	finCount int
 	srvState lime.SessionState
+	sentOK   int // number of envelopes of the sequence whose send succeeded
 }
 
 func accepts(p int, id string) bool {
@@ -205,8 +206,10 @@ func sendSeq(ctx context.Context, x *harness.X, st *state, s sender) {
 		st.sent[fmt.Sprintf("%d/%d", i, e.kind)] = canon
 		if err != nil {
 			x.Obs("send %d failed", i)
+			st.sentOK = i
 			return
 		}
+		st.sentOK = i + 1
 	}
 }
 
@@ -354,6 +357,9 @@ func final(x *harness.X, r *rt.Result) {
 	}
 	var perKind [kinds][]exp
 	for i, e := range st.seq {
+		if i >= st.sentOK {
+			break // never sent: nothing to dispatch
+		}
 		for hi, h := range st.tables[e.kind] {
 			if accepts(h.pred, e.id) {
 				perKind[e.kind] = append(perKind[e.kind], exp{hi, e.id, h.fail, i})
@@ -408,7 +414,7 @@ func final(x *harness.X, r *rt.Result) {
 func firstLine(s string) string { return strings.SplitN(s, "\n", 2)[0] }
 
 func main() {
-	opt := rt.Options{NoExplore: true, Horizon: 60 * time.Second, MaxSteps: 50000}
+	opt := rt.Options{NoExplore: true, Horizon: 60 * time.Second, MaxSteps: 50000, NoTimerDeviation: true}
 	mk := func(name string, body func(*harness.X), q, t int) harness.Scenario {
 		return harness.Scenario{Name: name, Opt: opt, Quick: q, Thorough: t, Body: body, Final: final, Prune: true}
 	}
@@ -421,13 +427,13 @@ func main() {
 			mk("server/one-kind/h2/len2", serverBody("one", 2, 2), 0, -1),
 			mk("server/mixed4/len2", serverBody("mixed4", 1, 2), 0, -1),
 			mk("client/one-kind/h2/len2", clientBody("one", 2, 2), 0, -1),
-			mk("server/one-kind/h3/len3", serverBody("one", 3, 3), -1, 0),
-			mk("server/mixed/len2", serverBody("mixed", 1, 2), -1, 0),
+			mk("server/one-kind/h3/len2", serverBody("one", 3, 2), -1, 0),
+			mk("server/one-kind/h2/len3", serverBody("one", 2, 3), -1, 0),
 			mk("server/mixed4/len3", serverBody("mixed4", 1, 3), -1, 0),
 			mk("client/one-kind/h3/len3", clientBody("one", 3, 3), -1, 0),
 			mk("client/mixed4/len3", clientBody("mixed4", 1, 3), -1, 0),
 			mk("server/one-kind/h2/len2/k1", serverBody("one", 2, 2), -1, 1),
-			mk("server/mixed4/len2/k1", serverBody("mixed4", 1, 2), -1, 1),
+			mk("server/one-kind/h1/len2/k2", serverBody("one", 1, 2), -1, 2),
 		},
 	})
 }
